@@ -1,5 +1,6 @@
 SPECIFICATION Spec
 CONSTANTS
+  KEYBYSENT = FALSE
   OORD <- t_OORD
   AORD <- t_AORD
   AVSORD <- t_AVSORD
